@@ -228,3 +228,9 @@ func VerifWrapCallbacks(e *Engine,
 		env.tests[n] = wt(n, env.tests[n])
 	}
 }
+
+// VerifGetItem calls the engine's subscript lookup (x['name']) directly.
+func VerifGetItem(container, index interface{}) (interface{}, error) {
+	ctx := &RenderContext{}
+	return ctx.getItem(container, index)
+}
